@@ -9,7 +9,7 @@ SUITE=0; CHECKS=""
 while [ $# -gt 0 ]; do case "$1" in --suite) SUITE=1;; --checks) CHECKS="$2"; shift;; esac; shift; done
 [ -z "$CHECKS" ] && CHECKS=$(python3 -c "import json;print(json.load(open('$D/meta.json'))['property'])")
 DEMO=$(ls "$D"/demo* | head -1)
-exec > >(tee "$D/verified.txt") 2>&1
+exec > >(tee "$D/verified.$(echo $CHECKS | tr " " "_").txt") 2>&1
 echo "verified $(date -u +%FT%TZ) repo HEAD $(git -C /repo rev-parse --short HEAD) checks: $CHECKS suite=$SUITE"
 W=$(mktemp -d /tmp/vfseed.XXXXXX)
 git -C /repo worktree add --detach -f "$W" HEAD >/dev/null 2>&1 || { echo "worktree failed"; exit 2; }
